@@ -26,7 +26,11 @@ class Facts:
     # ---- loading -------------------------------------------------------------------------------
     @staticmethod
     def load(facts_dir):
-        pk = os.path.join(facts_dir, "facts.pkl")
+        # the parse cache is tied to the version of this module (a pickle written by older code is ignored, not trusted)
+        import hashlib
+        with open(os.path.abspath(__file__), "rb") as _fh:
+            _ver = hashlib.sha1(_fh.read()).hexdigest()[:10]
+        pk = os.path.join(facts_dir, f"facts-{_ver}.pkl")
         if os.path.exists(pk):
             try:
                 with open(pk, "rb") as fh:
